@@ -395,22 +395,40 @@ def run(chk):
             okn = okn and bool(allow)
         chk.ob("R6 client validation", "R6|authentication|evalByCredential-without-allow-list", okn and len(ns) == 1, where(gc), "NotSupportedError under evalByCredential non-empty ∧ (allowCredentials absent ∨ empty): %s" % okn)
         oks = False
+        polw = ""
         for bb, i, rv in sy:
             conds = flow.conditions(p, gc, bb, T)
             for sb, l, t in conds:
-                if is_call(t, "Iterator::any") and flow.lab_true(l):
-                    r = closure_ret(p, t[2][1], subst=False)
-                    cb = p.bodies.get(t[2][1][1]) if t[2][1][0] == "closure" else None
-                    empt = cb is not None and any(names.call_is(t3, "Bytes::is_empty", "Vec::is_empty", "slice::is_empty") or (t3.get("callee") or "").endswith("is_empty") for nb in p.nested(cb.path) for b3, t3 in nb.calls())
-                    unl = cb is not None and any(names.call_is(t3, "PartialEq::eq") for nb in p.nested(cb.path) for b3, t3 in nb.calls())
-                    oks = empt and unl
+                neg = False
+                tt = t
+                if tt[0] == "unop" and tt[1] == "Not":
+                    neg, tt = True, tt[2]
+                if (is_call(tt, "Iterator::any") or is_call(tt, "Iterator::all")) and tt[2][1][0] == "closure":
+                    cb = p.bodies.get(tt[2][1][1])
+                    if cb is None:
+                        continue
+                    nest = p.nested(cb.path)
+                    empt = any((t3.get("callee") or "").endswith("is_empty") for nb in nest for b3, t3 in nb.calls())
+                    unl = any(names.call_is(t3, "PartialEq::eq") for nb in nest for b3, t3 in nb.calls())
+                    # polarity of the predicate: what does it answer for an empty key?
+                    pol = None
+                    for o in S.outcomes(cb):
+                        for c, cl, f, w in o.conds:
+                            if isinstance(c, tuple) and len(c) == 4 and c[0] == "call" and c[1].endswith("is_empty") and flow.lab_true(cl) and o.value in (("const", 1), ("const", 0)):
+                                pol = "bad" if o.value == ("const", 1) else "good"
+                    taken_true = flow.lab_true(l) != neg
+                    quant = "any" if is_call(tt, "Iterator::any") else "all"
+                    # reject iff some key is bad  ==  any(bad) is true  ==  all(good) is false
+                    right = (quant == "any" and pol == "bad" and taken_true) or (quant == "all" and pol == "good" and not taken_true)
+                    polw = "SyntaxError when %s(%s-key predicate) is %s" % (quant, pol, taken_true)
+                    oks = empt and unl and right
         # undecodable key: Bytes::try_from error mapped to SyntaxError
         undec = False
         for nb in p.nested(gc.path):
             if find_aggs(nb, "WebauthnError", "SyntaxError") and nb is not gc:
                 undec = True
         has_tf = any(names.call_is(t3, "TryFrom::try_from") and "Bytes" in (t3.get("callee_full") or "") for nb in p.nested(gc.path) for b3, t3 in nb.calls())
-        chk.ob("R6 client validation", "R6|authentication|empty-or-unlisted-key", oks, where(gc), "SyntaxError under any(key empty ∨ not in allowCredentials): %s" % oks)
+        chk.ob("R6 client validation", "R6|authentication|empty-or-unlisted-key", oks, where(gc), "%s — must be equivalent to 'some key is empty or unlisted': %s" % (polw, oks))
         chk.ob("R6 client validation", "R6|authentication|undecodable-key", undec and has_tf, where(gc), "Bytes::try_from(key) failure maps to SyntaxError: %s" % (undec and has_tf))
     chk.floor("R1", 4)
     chk.floor("R2", 5)
